@@ -753,6 +753,35 @@ func (in *Interp) store(p Value, v Value) {
 
 // symLoad reads base[idx] for a symbolic in-range idx.
 func (in *Interp) symLoad(p SymPtr) Value {
+	v := in.symLoad1(p)
+	// remember look-ups in injective constant tables (hex digits, base64
+	// alphabets): two such look-ups are equal iff their indexes are
+	if r, ok := v.(*Term); ok && !r.IsConst() && len(p.base) <= 256 {
+		seen := map[uint64]bool{}
+		var sb strings.Builder
+		inj := true
+		for _, e := range p.base {
+			t, ok := e.(*Term)
+			if !ok || !t.IsConst() || t.w > 64 || seen[t.c] {
+				inj = false
+				break
+			}
+			seen[t.c] = true
+			fmt.Fprintf(&sb, "%d,", t.c)
+		}
+		if inj {
+			if in.tt.tableLoads == nil {
+				in.tt.tableLoads = map[*Term]tableLoad{}
+			}
+			if _, dup := in.tt.tableLoads[r]; !dup {
+				in.tt.tableLoads[r] = tableLoad{key: sb.String(), idx: p.idx}
+			}
+		}
+	}
+	return v
+}
+
+func (in *Interp) symLoad1(p SymPtr) Value {
 	n := len(p.base)
 	if n == 0 {
 		panic("symLoad on empty base")
